@@ -3038,25 +3038,29 @@ func incomingPayloadWhole(c *Ctx, rule string) {
 		if len(r.Results) < 2 {
 			continue
 		}
-		n++
-		rd := Unwrap(r.Results[0])
-		whole := false
-		if cc, ok := rd.(*ssa.Call); ok && CalleeName(cc.Common()) == "io.MultiReader" {
-			els := variadicOrdered(cc.Call.Args[0])
-			whole = len(els) >= 2 && els[len(els)-1] != nil && SameVar(els[len(els)-1], src)
+		isWhole := func(v ssa.Value) bool {
+			if cc, ok := Unwrap(v).(*ssa.Call); ok && CalleeName(cc.Common()) == "io.MultiReader" {
+				els := variadicOrdered(cc.Call.Args[0])
+				return len(els) >= 2 && els[len(els)-1] != nil && SameVar(els[len(els)-1], src)
+			}
+			return false
 		}
-		if !whole {
-			g, where := Guarded(fn.Blocks[0], r, atEOF, nil)
+		// every reader that is not "prefix, then the rest of the input" — returned directly or merged into a
+		// single return — arrives only where the input ended
+		nArr, g, where := GuardedArrivals(fn, r, 0, func(v ssa.Value) bool { return !isWhole(v) && !IsNilConst(v) }, atEOF, nil)
+		nAll, _, _ := GuardedArrivals(fn, r, 0, func(v ssa.Value) bool { return true }, nil, nil)
+		n += nAll
+		if nArr > 0 {
 			c.Check(g && nonVacuous(atEOF), rule, "incomingOrCached:prefix-only-at-end-of-input#"+itoa(n), p.InstrPos(r), "the prefix alone is returned only when the input ended (or was empty)",
 				"incomingOrCached can return only the first bytes of a payload although the input did not report its end ("+where+"): content delivered in several reads is cut, or a full buffer is taken for the whole payload")
 		}
-		if ResultOfCall(r.Results[1], read, 1) {
-			g, where := Guarded(fn.Blocks[0], r, notEOF, nil)
-			c.Check(g && nonVacuous(notEOF), rule, "incomingOrCached:eof-is-not-an-error#"+itoa(n), p.InstrPos(r), "the read's error is handed on only where it is not io.EOF",
-				"incomingOrCached can hand io.EOF to its caller as an error ("+where+"): a payload that exactly fills the buffer makes the filter answer with empty content and status success")
+		nErr, g2, where2 := GuardedArrivals(fn, r, 1, func(v ssa.Value) bool { return ResultOfCall(v, read, 1) }, notEOF, nil)
+		if nErr > 0 {
+			c.Check(g2 && nonVacuous(notEOF), rule, "incomingOrCached:eof-is-not-an-error#"+itoa(n), p.InstrPos(r), "the read's error is handed on only where it is not io.EOF",
+				"incomingOrCached can hand io.EOF to its caller as an error ("+where2+"): a payload that exactly fills the buffer makes the filter answer with empty content and status success")
 		}
 	}
-	c.AtLeast(rule, "returns of incomingOrCached", n, 3)
+	c.AtLeast(rule, "readers returned by incomingOrCached", n, 3)
 }
 
 // locksOfAllRefsKnownBeforeUpload (C16): an object reachable from several pushed refs is uploaded while the
